@@ -1,4 +1,5 @@
 import KoordVerif.Proofs.C03Ext
+import KoordVerif.Proofs.C03Ext3
 import KoordVerif.Props.C02
 /-
 C03 — property theorems (DESIGN.md §4 C03) over the model `Model/C03.lean`.
@@ -18,6 +19,12 @@ C03 — property theorems (DESIGN.md §4 C03) over the model `Model/C03.lean`.
      `interleaved_reparent_counterexample`, `interleaved_arrival_counterexample` — the interleavings that break it.
   7. `exclusive_unreserve_single_subtraction`, `shared_unreserve_counterexample` — Unreserve(p) ∥ OnPodDelete(p) at
      critical-section granularity: the exclusive lock gives a single subtraction under every interleaving.
+  8. the `IsQuotaChange` gate of `OnQuotaUpdate` / `UpdateQuota` (model `isQuotaChange`, `quotaUpdate`; Proofs/C03Ext3:
+     `isQuotaChange_false_iff`, `limits_follow_last_declared`, `removeZeros_gate_counterexample`): `closed_loop_inv_gated`,
+     `used_never_above_max_gated`, `np_used_never_above_min_gated` — §5 with every quota object passing the gate and
+     with max/min updates that add entries or lower values while the shown usage fits (`FitsUpdate`,
+     `quotaMaxMin_inv_fits`); `used_within_last_declared` — used ≤ max and non-preemptible used ≤ min of the LAST
+     DECLARED object of the group.
 -/
 namespace KoordVerif.C03
 
@@ -1401,6 +1408,366 @@ theorem shared_unreserve_counterexample :
     (lRun .shared podDeleteLock [true, false, true, false, true, false] lInit).map (fun s => (s.subs, s.pcU, s.pcD)) =
       some (2, .done, .done) ∧
     clamp0 (clamp0 (10 - 6) - 6) = 0 := by
+  decide
+
+/-! ### 8. quota objects pass the `IsQuotaChange` gate
+
+`Plugin.OnQuotaUpdate` / `UpdateQuota` drop an object that repeats what the manager holds.  The gate is part of the
+model (`isQuotaChange`, `quotaUpdate`; Proofs/C03Ext3): `limits_follow_last_declared` — after any history the
+manager's limits are those of the last declared object, zero-valued entries included — and the closed loop below
+runs every quota object through it. -/
+
+/-- a zero-valued entry that appears (or disappears) IS a change. -/
+theorem isQuotaChange_zero_entry (D : Nat) (q : Quota) (mx : RL) (d : Nat) (hd : d < D)
+    (h : (q.max d = none ∧ mx d = some 0) ∨ (q.max d = some 0 ∧ mx d = none)) :
+    isQuotaChange D q q.parent q.isParent q.lent mx q.min = true := by
+  cases hc : isQuotaChange D q q.parent q.isParent q.lent mx q.min with
+  | true => rfl
+  | false =>
+    have := ((isQuotaChange_false_iff D q _ _ _ mx _).mp hc).2.2.2.1 d hd
+    rcases h with ⟨h1, h2⟩ | ⟨h1, h2⟩ <;> rw [h1, h2] at this <;> cases this
+
+
+/-- **After any history — quota objects through the gate, pod events, runtime refreshes, migration ticks, in any
+    order, from the empty manager — the limits the manager holds for a group are those of the group's last declared
+    object, in every dimension of the world, key presence included.** -/
+theorem limits_follow_last_declared (D : Nat) (ops : List Op) (n : Nat) (mx mn : RL)
+    (h : lastDecl n ops = some (mx, mn)) :
+    ∃ q, findQ (ops.foldl stepG (init D)).quotas n = some q ∧
+      ∀ d, d < D → q.max d = mx d ∧ q.min d = mn d := by
+  have := last_declared_aux n ops (init D)
+  rw [h] at this
+  obtain ⟨mx', mn', hl, hd⟩ := this
+  have hdims : (ops.foldl stepG (init D)).dims = D := foldl_stepG_dims ops (init D)
+  unfold limOf at hl
+  cases hq : findQ (ops.foldl stepG (init D)).quotas n with
+  | none => rw [hq] at hl; cases hl
+  | some q =>
+    rw [hq] at hl
+    simp only [Option.map_some, Option.some.injEq, Prod.mk.injEq] at hl
+    refine ⟨q, rfl, fun d hd' => ?_⟩
+    rw [hl.1, hl.2]
+    exact hd d (by rw [hdims]; exact hd')
+
+/-! ### a gate that compares after `quotav1.RemoveZeros` breaks it -/
+
+/-- `quotav1.RemoveZeros`. -/
+def removeZeros (a : RL) : RL := fun d => if a d = some 0 then none else a d
+
+def isQuotaChangeRZ (D : Nat) (q : Quota) (parent : Nat) (isParent lent : Bool) (mx mn : RL) : Bool :=
+  q.lent != lent || q.isParent != isParent || q.parent != parent ||
+    !rlEq D (removeZeros q.max) (removeZeros mx) || !rlEq D (removeZeros q.min) (removeZeros mn)
+
+def quotaUpdateRZ (s : State) (n parent : Nat) (isParent lent : Bool) (mx mn : RL) : State :=
+  match findQ s.quotas n with
+  | none => quotaSet s n parent isParent lent mx mn
+  | some q => if isQuotaChangeRZ s.dims q parent isParent lent mx mn then quotaSet s n parent isParent lent mx mn else s
+
+def rzMax0 : RL := fun d => if d = 0 then some 4 else none
+def rzMax1 : RL := fun d => if d = 0 then some 4 else if d = 1 then some 0 else none
+def rzPod : Pod := { id := 1, quota := 1, label := 1, np := false, req := fun d => if d = 1 then some 1 else none,
+                     inCache := true, assigned := false }
+
+/-- max {cpu: 4} → {cpu: 4, gpu: 0}: with the RemoveZeros gate the update is dropped, the manager keeps a max without the
+    gpu entry, and a pod asking for one gpu is admitted although the declared max says 0 (the faithful gate rejects
+    it); the other way round a pod is rejected against an entry the declared object no longer has. -/
+theorem removeZeros_gate_counterexample :
+    let s0 := quotaSet (init 2) 1 rootName false true rzMax0 RL.empty
+    let s1 := quotaSet (init 2) 1 rootName false true rzMax1 RL.empty
+    (attempt (quotaUpdateRZ s0 1 rootName false true rzMax1 RL.empty) ⟨false, false⟩ rzPod = .success ∧
+     attempt (quotaUpdate s0 1 rootName false true rzMax1 RL.empty) ⟨false, false⟩ rzPod = .unschedulable) ∧
+    (attempt (quotaUpdateRZ s1 1 rootName false true rzMax0 RL.empty) ⟨false, false⟩ rzPod = .unschedulable ∧
+     attempt (quotaUpdate s1 1 rootName false true rzMax0 RL.empty) ⟨false, false⟩ rzPod = .success) := by
+  decide
+
+/-! #### the closed loop behind the gate -/
+
+/-- the gate drops this event. -/
+def gateDrops (s : State) : Op → Bool
+  | .quotaSet n p ip l mx mn =>
+    match findQ s.quotas n with
+    | some q => !isQuotaChange s.dims q p ip l mx mn
+    | none => false
+  | _ => false
+
+/-- the interleaved history as the plugin runs it: a dropped quota object changes nothing (an open admission stays
+    open), everything else is `runI`. -/
+def runIG (is : IState) : IEv → IState
+  | .ext op => if gateDrops is.st op then is else runI is (.ext op)
+  | e => runI is e
+
+/-- `runIG` on a quota object is the model's `quotaUpdate`. -/
+theorem runIG_quota (is : IState) (n p : Nat) (ip l : Bool) (mx mn : RL) :
+    (runIG is (.ext (.quotaSet n p ip l mx mn))).st = quotaUpdate is.st n p ip l mx mn := by
+  show (if gateDrops is.st (.quotaSet n p ip l mx mn) then is else runI is (.ext (.quotaSet n p ip l mx mn))).st = _
+  unfold quotaUpdate
+  cases hq : findQ is.st.quotas n with
+  | none =>
+    have : gateDrops is.st (.quotaSet n p ip l mx mn) = false := by simp [gateDrops, hq]
+    rw [this]; rfl
+  | some q =>
+    cases hc : isQuotaChange is.st.dims q p ip l mx mn with
+    | true =>
+      have : gateDrops is.st (.quotaSet n p ip l mx mn) = false := by simp [gateDrops, hq, hc]
+      rw [this]; simp [hc, runI, step]
+    | false =>
+      have : gateDrops is.st (.quotaSet n p ip l mx mn) = true := by simp [gateDrops, hq, hc]
+      rw [this]; simp [hc]
+
+/-- A max/min update need not be "not lowered" entry by entry: it keeps the invariant whenever the usage the group
+    shows fits the NEW declared lists — in particular an entry that appears (a dimension added to max, value 0
+    included) over a usage of 0, and an entry that disappears. -/
+theorem quotaMaxMin_inv_fits (cp : Bool) (s : State) (n : Nat) (mx mn : RL) (hn : n ≠ rootName)
+    (hfit : ∀ g ∈ s.quotas, g.name = n →
+      ((cp = true ∨ IsLeafL s.quotas n) → ∀ d, d < s.dims → ∀ m, mx d = some m → g.used d ≤ m) ∧
+      (IsLeafL s.quotas n → ∀ d, d < s.dims → ∀ m, mn d = some m → g.npUsed d ≤ m))
+    (hI : Inv cp s) : Inv cp (quotaMaxMin s n mx mn) := by
+  unfold quotaMaxMin
+  apply inv_map cp s _ s.pods _ _ _ _ hI.reqNonneg _ _ hI
+  · intro q; by_cases h : q.name = n <;> simp [h]
+  · intro q; by_cases h : q.name = n <;> simp [h]
+  · intro g hg hr d
+    have : g.name ≠ n := by rw [hr]; exact fun e => hn e.symm
+    simp only [this, if_false]; exact hI.rootMax g hg hr d
+  · intro g hg d; by_cases h : g.name = n <;> simp [h] <;> exact hI.nonneg g hg d
+  · intro g hg hc d hd m hm
+    by_cases h : g.name = n
+    · simp only [h, if_true] at hm ⊢
+      exact (hfit g hg h).1 (h ▸ hc) d hd m hm
+    · simp only [h, if_false] at hm ⊢; exact hI.usedLeMax g hg hc d hd m hm
+  · intro g hg hc d hd m hm
+    by_cases h : g.name = n
+    · simp only [h, if_true] at hm ⊢
+      exact (hfit g hg h).2 (h ▸ hc) d hd m hm
+    · simp only [h, if_false] at hm ⊢; exact hI.npLeMin g hg hc d hd m hm
+
+/-- a max/min-only update of a known group that ADDS entries or lowers values (outside `NotLowered`): covered while no
+    admission is open, when the usage the group shows fits the new lists — e.g. a dimension added to max (value 0
+    included) in which the group shows no usage.  The harness generates exactly such updates in its closed-loop
+    streams (`specFits`, by its own books) and closes an open admission on the group's path first. -/
+def FitsUpdate (cp : Bool) (s : State) (n parent : Nat) (ip l : Bool) (mx mn : RL) : Prop :=
+  n ≠ rootName ∧ ∃ q, findQ s.quotas n = some q ∧ (q.parent = parent ∧ q.isParent = ip ∧ q.lent = l) ∧
+    ((cp = true ∨ IsLeafL s.quotas n) → ∀ d, d < s.dims → ∀ m, mx d = some m → q.used d ≤ m) ∧
+    (IsLeafL s.quotas n → ∀ d, d < s.dims → ∀ m, mn d = some m → q.npUsed d ≤ m)
+
+def IEvOKG (cp : Bool) (is : IState) : IEv → Prop
+  | .ext (.quotaSet n p ip l mx mn) =>
+    IEvOK cp is (.ext (.quotaSet n p ip l mx mn)) ∨ (is.pend = none ∧ FitsUpdate cp is.st n p ip l mx mn)
+  | e => IEvOK cp is e
+
+def IValidG (cp : Bool) : IState → List IEv → Prop
+  | _, [] => True
+  | s, e :: es => IEvOKG cp s e ∧ IValidG cp (runIG s e) es
+
+theorem quotaSet_fits_inv (cp : Bool) (s : State) (n parent : Nat) (ip l : Bool) (mx mn : RL)
+    (hf : FitsUpdate cp s n parent ip l mx mn) (hI : Inv cp s) : Inv cp (quotaSet s n parent ip l mx mn) := by
+  obtain ⟨hn, q, hq, hmeta, hu, hnp⟩ := hf
+  unfold quotaSet
+  rw [hq]
+  simp only []
+  rw [if_pos hmeta]
+  refine quotaMaxMin_inv_fits cp s n mx mn hn ?_ hI
+  intro g hg hgn
+  have : findQ s.quotas n = some g := hgn ▸ findQ_of_mem hI.nodup hg
+  rw [hq] at this
+  cases this
+  exact ⟨hu, hnp⟩
+
+theorem runIG_inv (cp : Bool) (is : IState) (e : IEv) (hI : IInv cp is) (hok : IEvOKG cp is e) :
+    IInv cp (runIG is e) := by
+  cases e with
+  | ext op =>
+    show IInv cp (if gateDrops is.st op then is else runI is (.ext op))
+    by_cases h : gateDrops is.st op = true
+    · rw [if_pos h]; exact hI
+    · rw [if_neg h]
+      cases op with
+      | quotaSet n p ip l mx mn =>
+        rcases hok with hok | ⟨hpend, hf⟩
+        · exact runI_inv cp is _ hI hok
+        · refine ⟨quotaSet_fits_inv cp is.st n p ip l mx mn hf hI.1, ?_⟩
+          intro id hid
+          simp only [runI, hpend] at hid
+          split at hid <;> cases hid
+      | _ => exact runI_inv cp is _ hI hok
+  | prefilter id cfg => exact runI_inv cp is _ hI hok
+  | reserve => exact runI_inv cp is _ hI hok
+
+/-- DESIGN §4 C03 T3, interleaved form, with every quota object passing the `IsQuotaChange` gate. -/
+theorem closed_loop_inv_gated (cp : Bool) : ∀ (evs : List IEv) (is : IState), IInv cp is → IValidG cp is evs →
+    IInv cp (evs.foldl runIG is) := by
+  intro evs
+  induction evs with
+  | nil => intro s h _; exact h
+  | cons e es ih =>
+    intro s hI hv
+    exact ih _ (runIG_inv cp s e hI hv.1) hv.2
+
+theorem used_never_above_max_gated (cp : Bool) (D : Nat) (evs : List IEv)
+    (hv : IValidG cp ⟨init D, none⟩ evs) :
+    ∀ g ∈ (evs.foldl runIG ⟨init D, none⟩).st.quotas,
+      (cp = true ∨ IsLeafL (evs.foldl runIG ⟨init D, none⟩).st.quotas g.name) →
+      ∀ d, d < (evs.foldl runIG ⟨init D, none⟩).st.dims → ∀ m, g.max d = some m → g.used d ≤ m :=
+  (closed_loop_inv_gated cp evs ⟨init D, none⟩ ⟨init_inv cp D, fun _ h => by cases h⟩ hv).1.usedLeMax
+
+theorem np_used_never_above_min_gated (cp : Bool) (D : Nat) (evs : List IEv)
+    (hv : IValidG cp ⟨init D, none⟩ evs) :
+    ∀ g ∈ (evs.foldl runIG ⟨init D, none⟩).st.quotas, IsLeafL (evs.foldl runIG ⟨init D, none⟩).st.quotas g.name →
+      ∀ d, d < (evs.foldl runIG ⟨init D, none⟩).st.dims → ∀ m, g.min d = some m → g.npUsed d ≤ m :=
+  (closed_loop_inv_gated cp evs ⟨init D, none⟩ ⟨init_inv cp D, fun _ h => by cases h⟩ hv).1.npLeMin
+
+/-- the manager-level event behind an event of the interleaved history. -/
+def opOf (is : IState) : IEv → Op
+  | .prefilter id cfg => .attempt id cfg
+  | .reserve =>
+    match is.pend with
+    | some id => .reserve id
+    | none => .attempt 0 ⟨false, false⟩   -- no admission is open: `runI` does nothing, neither does a PreFilter
+  | .ext op => op
+
+/-- the manager-level history of an interleaved history. -/
+def opsOf : IState → List IEv → List Op
+  | _, [] => []
+  | is, e :: es => opOf is e :: opsOf (runIG is e) es
+
+theorem attempt_noop (s : State) (id : Nat) (cfg : Cfg) : (step s (.attempt id cfg)).1 = s := by
+  simp only [step]; cases findP s.pods id <;> rfl
+
+/-- the manager's state of the interleaved run is the gated run of its manager-level history. -/
+theorem runIG_st (is : IState) (e : IEv) : (runIG is e).st = stepG is.st (opOf is e) := by
+  cases e with
+  | prefilter id cfg => exact (attempt_noop is.st id cfg).symm
+  | reserve =>
+    cases hp : is.pend with
+    | some id => simp [runIG, runI, opOf, hp, stepG, step]
+    | none =>
+      simp only [opOf, hp]
+      show (runI is .reserve).st = (step is.st (.attempt 0 ⟨false, false⟩)).1
+      rw [attempt_noop]; simp [runI, hp]
+  | ext op =>
+    cases op with
+    | quotaSet n p ip l mx mn => exact runIG_quota is n p ip l mx mn
+    | _ => rfl
+
+theorem foldl_runIG_st : ∀ (evs : List IEv) (is : IState),
+    (evs.foldl runIG is).st = (opsOf is evs).foldl stepG is.st := by
+  intro evs
+  induction evs with
+  | nil => intro is; rfl
+  | cons e es ih =>
+    intro is
+    simp only [List.foldl_cons, opsOf]
+    rw [ih, runIG_st]
+
+/-- the last object declared for group `n` in an interleaved history. -/
+def lastDeclI (n : Nat) (is : IState) (evs : List IEv) : Option (RL × RL) := lastDecl n (opsOf is evs)
+
+/-- **The closed loop in the property's own terms**: after any interleaved history (every quota object through the
+    gate) a group shows used within the max — and non-preemptible used within the min — of its LAST DECLARED object,
+    on every dimension that object declares (zero-valued entries included). -/
+theorem used_within_last_declared (cp : Bool) (D : Nat) (evs : List IEv) (hv : IValidG cp ⟨init D, none⟩ evs)
+    (n : Nat) (mx mn : RL) (h : lastDeclI n ⟨init D, none⟩ evs = some (mx, mn)) :
+    ∃ g, findQ (evs.foldl runIG ⟨init D, none⟩).st.quotas n = some g ∧
+      ((cp = true ∨ IsLeafL (evs.foldl runIG ⟨init D, none⟩).st.quotas n) →
+        ∀ d, d < D → ∀ m, mx d = some m → g.used d ≤ m) ∧
+      (IsLeafL (evs.foldl runIG ⟨init D, none⟩).st.quotas n →
+        ∀ d, d < D → ∀ m, mn d = some m → g.npUsed d ≤ m) := by
+  have hI := (closed_loop_inv_gated cp evs ⟨init D, none⟩ ⟨init_inv cp D, fun _ h => by cases h⟩ hv).1
+  have hst := foldl_runIG_st evs ⟨init D, none⟩
+  obtain ⟨g, hg, hlim⟩ := limits_follow_last_declared D (opsOf ⟨init D, none⟩ evs) n mx mn h
+  have hdims : (evs.foldl runIG ⟨init D, none⟩).st.dims = D := by
+    rw [hst]; exact foldl_stepG_dims _ _
+  rw [← hst] at hg
+  have hmem := findQ_some hg
+  refine ⟨g, hg, ?_, ?_⟩
+  · intro hc d hd m hm
+    exact hI.usedLeMax g hmem.1 (by rw [hmem.2]; exact hc) d (by rw [hdims]; exact hd) m (by rw [(hlim d hd).1]; exact hm)
+  · intro hc d hd m hm
+    exact hI.npLeMin g hmem.1 (by rw [hmem.2]; exact hc) d (by rw [hdims]; exact hd) m (by rw [(hlim d hd).2]; exact hm)
+
+/-! #### non-vacuity of §8 -/
+
+section Examples3
+
+def ex3Max0 : RL := fun d => if d = 0 then some 4 else none                              -- {cpu: 4}
+def ex3Max1 : RL := fun d => if d = 0 then some 4 else if d = 1 then some 0 else none    -- {cpu: 4, gpu: 0}
+
+/-- group 1 declares {cpu: 4}; pod 1 (cpu 1, gpu 1) is admitted; the same object arrives again (dropped by the gate, the
+    admission stays open); Reserve; the object {cpu: 4, gpu: 0} arrives (applied: only a zero-valued entry differs);
+    pod 2 (gpu 1) is rejected; the object {cpu: 4} arrives (applied); pod 2 is admitted. -/
+def ex3Evs : List IEv :=
+  [ .ext (.quotaSet 1 0 false true ex3Max0 RL.empty),
+    .ext (.podDef 1 1 false (fun d => if d = 0 then some 1 else if d = 1 then some 1 else none)), .ext (.podAdd 1),
+    .prefilter 1 ⟨false, false⟩,
+    .ext (.quotaSet 1 0 false true ex3Max0 RL.empty),
+    .reserve,
+    .ext (.quotaSet 1 0 false true ex3Max1 RL.empty),
+    .ext (.podDef 2 1 false (fun d => if d = 1 then some 1 else none)), .ext (.podAdd 2),
+    .prefilter 2 ⟨false, false⟩,
+    .ext (.quotaSet 1 0 false true ex3Max0 RL.empty),
+    .prefilter 2 ⟨false, false⟩ ]
+
+def ex3At (k : Nat) : IState := (ex3Evs.take k).foldl runIG ⟨init 2, none⟩
+
+example : ((ex3At 4).pend, (ex3At 5).pend, (ex3At 6).pend, (ex3At 10).pend, (ex3At 12).pend) =
+    (some 1, some 1, none, none, some 2) := by decide
+
+example : (gateDrops (ex3At 4).st (.quotaSet 1 0 false true ex3Max0 RL.empty),
+           gateDrops (ex3At 6).st (.quotaSet 1 0 false true ex3Max1 RL.empty),
+           gateDrops (ex3At 10).st (.quotaSet 1 0 false true ex3Max0 RL.empty)) = (true, false, false) := by decide
+
+example : ((ex3At 7).st.quotas.map fun g => (g.name, g.max 0, g.max 1, g.used 0, g.used 1)) =
+    [(0, none, none, 1, 0), (1, some 4, some 0, 1, 0)] := by decide
+
+example : ((lastDeclI 1 ⟨init 2, none⟩ (ex3Evs.take 7)).map fun x => (x.1 0, x.1 1),
+           (lastDeclI 1 ⟨init 2, none⟩ ex3Evs).map fun x => (x.1 0, x.1 1)) =
+    (some (some 4, some 0), some (some 4, none)) := by decide
+
+/-- the zero-entry update of step 7 satisfies `FitsUpdate` (no admission is open, the group shows no gpu usage). -/
+example : (ex3At 6).pend = none ∧ FitsUpdate false (ex3At 6).st 1 0 false true ex3Max1 RL.empty := by
+  refine ⟨by decide, by decide, ?_⟩
+  refine ⟨((ex3At 6).st.quotas.find? fun q => q.name == 1).get (by decide),
+    by unfold findQ; rw [Option.some_get], by decide, ?_, ?_⟩
+  · intro _ d hd m hm
+    have : d = 0 ∨ d = 1 := by have : d < 2 := hd; omega
+    rcases this with rfl | rfl
+    · have : m = 4 := by simpa [ex3Max1] using hm.symm
+      subst this; decide
+    · have : m = 0 := by simpa [ex3Max1] using hm.symm
+      subst this; decide
+  · intro _ d _ m hm; simp [RL.empty] at hm
+
+end Examples3
+
+/-! #### deviation on the unchanged tree: a dimension added to max under assigned pods
+
+Outside the closed-loop histories (`FitsUpdate` speaks about the usage the manager SHOWS; the harness generates such
+an update only in its wild streams, model correspondence only).  The mask of a pod's request is the key set of its
+group's max at the moment of the booking; assigned pods are not re-booked when that key set changes, and a roll-back
+subtracts with the NEW mask (clamped at 0). -/
+
+def ex4Max (g : Option Int) : RL := fun d => if d = 0 then some 4 else if d = 1 then g else none
+def ex4Req (c g : Int) : RL := fun d => if d = 0 then some c else if d = 1 then some g else none
+
+/-- group 1 declares {cpu: 4}; pod 1 (cpu 1, gpu 2) is admitted and reserved (gpu masked out); the group now declares
+    {cpu: 4, gpu: 2}; pod 2 (cpu 1, gpu 2) is admitted and reserved — shown gpu usage 2, held 4; pod 1 is rolled back:
+    shown gpu usage 0 with pod 2 (gpu 2) still assigned; pod 3 (cpu 1, gpu 2) is admitted: the group's pods hold gpu 4
+    against a declared max of 2, and the shown usage says 2. -/
+def ex4Evs : List IEv :=
+  [ .ext (.quotaSet 1 0 false true (ex4Max none) RL.empty),
+    .ext (.podDef 1 1 false (ex4Req 1 2)), .ext (.podAdd 1), .prefilter 1 ⟨false, false⟩, .reserve,
+    .ext (.quotaSet 1 0 false true (ex4Max (some 2)) RL.empty),
+    .ext (.podDef 2 1 false (ex4Req 1 2)), .ext (.podAdd 2), .prefilter 2 ⟨false, false⟩, .reserve,
+    .ext (.unreserve 1),
+    .ext (.podDef 3 1 false (ex4Req 1 2)), .ext (.podAdd 3), .prefilter 3 ⟨false, false⟩, .reserve ]
+
+def ex4At (k : Nat) : IState := (ex4Evs.take k).foldl runIG ⟨init 2, none⟩
+
+theorem mask_shift_counterexample :
+    ((ex4At 10).st.quotas.map fun g => (g.name, g.used 0, g.used 1)) = [(0, 2, 2), (1, 2, 2)] ∧
+    ((ex4At 11).st.quotas.map fun g => (g.name, g.used 0, g.used 1)) = [(0, 1, 0), (1, 1, 0)] ∧
+    ((ex4At 15).st.quotas.map fun g => (g.name, g.max 1, g.used 0, g.used 1)) = [(0, none, 2, 2), (1, some 2, 2, 2)] ∧
+    ((ex4At 15).st.pods.map fun p => (p.id, p.assigned, val p.req 1)) = [(1, false, 2), (2, true, 2), (3, true, 2)] := by
   decide
 
 end KoordVerif.C03
